@@ -3,7 +3,7 @@ C01 - CVSS v3.0/v3.1 scores equal the FIRST specification equations.
 E1 product sweep on the real CVSS3 class against vf.ref.score3 (exact rationals, Roundup=ceil).
 """
 
-from .. import core, spaces, sweep
+from .. import core, observe, spaces, sweep
 from ..engine import product
 from ..ref import official, score3, tables as T
 
@@ -18,7 +18,7 @@ def judge(fam, vec, asg):
 
     exp = score3.scores(0 if fam == "3.0" else 1, asg)
     try:
-        got = cvss.CVSS3(vec).scores()
+        got = observe.construct(fam, vec).scores()
     except Exception as e:  # noqa
         return "constructor/scores() raised %s: %s" % (type(e).__name__, e), None, exp
     if not (isinstance(got, tuple) and len(got) == 3):
